@@ -30,6 +30,7 @@ def plan(tier, seed):
     specs = [{"kind": "api", "pool": 130 if tier == "quick" else 220} for _ in range(n)]
     specs += [{"kind": "containers", "n": 250 if tier == "quick" else 2500} for _ in range(n // 2)]
     specs += [{"kind": "programs", "n": 1200 if tier == "quick" else 12000} for _ in range(n // 2)]
+    specs += [{"kind": "suite"}]
     specs += [{"kind": "mutseq", "n": 600 if tier == "quick" else 6000} for _ in range(2 if tier == "quick" else 8)]
     return specs
 
@@ -366,6 +367,9 @@ def run_mutation_sequences(spec, ctx):
 
 def run_shard(spec, ctx):
     valuelaws.MONITOR.install()
+    if spec["kind"] == "suite":
+        from cklmon import suite
+        return suite.run_suite(ctx, "C06", "M2")
     if spec["kind"] == "mutseq":
         run_mutation_sequences(spec, ctx)
         valuelaws.MONITOR.drain(ctx, "C06")
@@ -386,4 +390,6 @@ def finalize(merged, tier):
               "program_evaluations", "mutation_sequences"):
         if c.get(k, 0) == 0:
             reasons.append("monitor counter %s is zero" % k)
+    if merged["counters"].get("suite_tests", 0) == 0 or merged["counters"].get("suite_report_missing", 0):
+        reasons.append("M9: the repository suite under monitors produced no observations")
     return {}, reasons
